@@ -46,8 +46,8 @@ def generate(seed, tier):
     sc = workload.pair_scenario(seed, PROP, o)
     if r.random() < 0.4:
         for _ in range(r.randint(1, 2)):
-            sc['ops'].append({'t': round(r.uniform(0.95, sc['until']), 3), 'op': 'kerr', 'node': r.choice('AB'), 'nth': r.randint(1, 3),
-                              'errno': r.choice(['ENOMEM', 'EINVAL', 'ENOBUFS'])})
+            sc['ops'].append({'t': round(r.uniform(0.95, sc['until']), 3), 'op': 'kerr', 'node': r.choice('AB'), 'nth': r.randint(1, 4),
+                              'errno': r.choice(['ENOMEM', 'EINVAL', 'ENOBUFS', 'EEXIST'])})
     sc['ops'].sort(key=lambda x: x['t'])
     return sc
 
@@ -179,6 +179,10 @@ def judge(w, tap, ctx, scenario, reach):
                 want_fam = K['AF_INET'] if len(sid['daddr_raw'].rstrip(b'\0')) <= 4 and ipaddress.ip_address(n.addrs[0]).version == 4 else K['AF_INET6']
                 if sid['family'] != want_fam:
                     return V('delsa_family_wrong', {}, f'{n.name}: DELSA family {sid["family"]} for daddr {sid["daddr_raw"].hex()}')
+                if d.get('same_spi_other_daddr'):
+                    return V('delsa_names_the_wrong_sa', {}, f'{n.name}: DELSA for (daddr {sid["daddr_raw"].hex()}, proto {sid["proto"]}, SPI '
+                                                             f'{sid["spi"].hex()}) matches nothing, while an SA with that SPI and protocol is installed '
+                                                             f'under daddr {d["same_spi_other_daddr"]}')
                 if r['errno'] and r['errno'] != 3:
                     return V('delsa_refused', {'errno': r['errno']}, f'{n.name}: DELSA refused with errno {r["errno"]}')
     # ---- 5. ACQUIRE: the offer that follows carries the flow the kernel reported
